@@ -5,6 +5,12 @@ Driver for graph update histories (C16).
                                             3 complete bipartite (l r)
   op ::= 0 u v | 1 u v | 2 k | 3 <#pairs> u v …     add_edge | remove_edge | update_vertex_number | add_edges_from
   gnx <kind> <size…> <#pairs> u v …         the graph built from the pairs, sent through toNx/fromNx
+  gfromnx <kind> <nxclass> <size…> <#pairs> u v …
+                                            `from_networkx` of class <kind> on a networkx object of class
+                                            <nxclass> (0 Graph, 1 DiGraph, 2 MultiGraph, 3 MultiDiGraph, 4 not a
+                                            networkx graph) whose nodes are 1..n (bipartite: 1..l left, l+1..l+r
+                                            right) and whose edge listing is ANY list of pairs: repeats (multigraphs),
+                                            loops, both orientations, edges inside a side
 
 Answer: `OK <view> | <outcome> <view> | …` — the views of the object after construction and
 after every operation (all of them, so that drifting redundant state is visible at once).
@@ -133,6 +139,23 @@ def handle (opname : String) (a : Args) : Option String :=
       | 2 => do
         let l ← nat; let r ← nat; let es ← natPairs
         pure (fmtExcept viewBip (do let g ← BipG.ofEdges l r es; BipG.fromNx g.toNx))
+      | _ => failure) a
+  | "gfromnx" => run (do
+      let kind ← int
+      let cls ← nat
+      -- the `isinstance` test at the head of each `from_networkx`: every networkx class derives from
+      -- `networkx.Graph`; `DiGraph` and `MultiDiGraph` derive from `networkx.DiGraph`
+      let accepted := fun (k : Int) => if k == 1 then cls == 1 || cls == 3 else cls < 4
+      match kind with
+      | 0 => do
+        let n ← nat; let es ← natPairs
+        pure (if accepted 0 then fmtExcept viewSimple (SimpleG.fromNx (n, es)) else err .valueError)
+      | 1 => do
+        let n ← nat; let es ← natPairs
+        pure (if accepted 1 then fmtExcept viewDi (DiG.fromNx (n, es)) else err .valueError)
+      | 2 => do
+        let l ← nat; let r ← nat; let es ← natPairs
+        pure (if accepted 2 then fmtExcept viewBip (BipG.fromNx (l, r, es)) else err .valueError)
       | _ => failure) a
   | _ => none
 
